@@ -5,6 +5,7 @@
 From QV Require Import Model.QasmImport Model.QasmExport Spec.QasmStrict Spec.QasmSem Found.Circ Gen.Gates Gen.Qasm.
 From QV Require Import Proofs.QasmShortcut Proofs.QasmExport Proofs.QasmLex Proofs.QasmLex2 Proofs.QasmLex3 Proofs.QasmLex4 Proofs.QasmLex5.
 From QV Require Import Proofs.QasmValid1 Proofs.QasmValid2 Proofs.QasmValid3 Proofs.QasmValid4 Proofs.QasmValid5 Proofs.QasmValid6.
+From QV Require Import Model.QasmExport2 Proofs.QasmExport2.
 Local Open Scope string_scope.
 Local Open Scope nat_scope.
 Local Open Scope list_scope.
@@ -198,3 +199,85 @@ Qed.
 Example shape_guard_needed : let c := mkEC 1 0 [EGate "RX" [0] [] (PNum (NFloat (FDec false "1x" "0"))) false] in
   shapes_ok c = false /\ exists txt, export c = Some txt /\ strict_parse txt = None.
 Proof. cbv zeta. split; [reflexivity|]. eexists. split; [vm_compute; reflexivity|]. vm_compute. reflexivity. Qed.
+
+(* ============ the repaired export path: user gates are refused, a parameterless gate is applied without a parameter list ============
+   Model/QasmExport2.v: a circuit x carries the keys of QubitCircuit.user_gates (x_user);  export2 x = None if some gate's name is such a
+   key (circuit.py _to_qasm), else the exporter above applied to the circuit in which the arg_value of every gate whose QASM name takes
+   no parameter is replaced by None (proj_circ; gateclass.py Gate._to_qasm + qasm.py QasmOutput.takes_parameters, whose signature table
+   and literal tuple are regenerated from qasm.py).  The harness hands the circuits to export2 UNPROJECTED. *)
+Theorem export2_refuses_user_gate : forall x n t ct a cc,
+  In (EGate n t ct a cc) (e_ops (x_c x)) -> In n (x_user x) -> export2 x = None.
+Proof. exact x2_refuses_user. Qed.
+Print Assumptions export2_refuses_user_gate.
+
+(* two circuits that differ only in the arg_value of gates whose QASM name takes no parameter are exported alike (same text / both refused) *)
+Theorem export2_ignores_parameterless_arg : forall x1 x2,
+  e_N (x_c x1) = e_N (x_c x2) -> e_ncb (x_c x1) = e_ncb (x_c x2) -> x_user x1 = x_user x2 ->
+  Forall2 same_upto_ignored_arg (e_ops (x_c x1)) (e_ops (x_c x2)) ->
+  export2 x1 = export2 x2.
+Proof. exact x2_ignores_arg. Qed.
+Print Assumptions export2_ignores_parameterless_arg.
+
+(* QasmOutput.takes_parameters agrees with the signatures: for every exportable gate name, its QASM name is applied with a parameter
+   list iff the gate it is exported as (qelib1 gate / emitted definition) has a parameter *)
+Theorem takes_parameters_agrees_with_signatures : forall n q np nq,
+  qname_of n = Some q -> name_sig n = Some (np, nq) -> takes_params q = (0 <? np).
+Proof. exact takes_params_sig. Qed.
+Print Assumptions takes_parameters_agrees_with_signatures.
+
+(* export_valid for the repaired exporter; the guards are those of export_valid for the circuit the unchanged part of the exporter sees *)
+Theorem export2_valid : forall x txt, export2 x = Some txt ->
+  no_meas (proj_circ (x_c x)) = true -> shapes_ok (proj_circ (x_c x)) = true -> circ_wf (proj_circ (x_c x)) = true ->
+  exists p, strict_parse txt = Some p /\ wf lib_sigs p = true /\ p = prog_of (proj_circ (x_c x)).
+Proof. exact x2_valid. Qed.
+Print Assumptions export2_valid.
+(* the projection preserves the guards (it makes circ_wf weaker: CNOT with an arg_value is well-formed only after it), hence: *)
+Theorem projection_preserves_guards : forall c,
+  no_meas (proj_circ c) = no_meas c /\ (shapes_ok c = true -> shapes_ok (proj_circ c) = true) /\ (circ_wf c = true -> circ_wf (proj_circ c) = true).
+Proof. exact (fun c => conj (proj_no_meas c) (conj (proj_shapes_ok c) (proj_circ_wf c))). Qed.
+Print Assumptions projection_preserves_guards.
+Theorem export2_valid_given_circuit : forall x txt, export2 x = Some txt ->
+  no_meas (x_c x) = true -> shapes_ok (x_c x) = true -> circ_wf (x_c x) = true ->
+  exists p, strict_parse txt = Some p /\ wf lib_sigs p = true /\ p = prog_of (proj_circ (x_c x)).
+Proof. exact x2_valid_orig. Qed.
+Print Assumptions export2_valid_given_circuit.
+
+(* on the old input language (no user gates, no argument on a parameterless gate) export2 IS export: every theorem above about
+   `export` is a theorem about the repaired exporter there *)
+Theorem export2_is_export_when_no_user_no_extra_args : forall c, no_extra_args c = true -> export2 (mkXC c []) = export c.
+Proof. exact x2_is_export. Qed.
+Print Assumptions export2_is_export_when_no_user_no_extra_args.
+
+(* non-vacuity: CNOT carrying 0.3 and SWAP carrying a list (dropped), CRX keeping its angle, a user list that does not name them;
+   the given circuit is NOT circ_wf, the projected one is *)
+Definition x_demo : xcirc :=
+  mkXC (mkEC 3 0 [EGate "CNOT" [1] [0] (PNum (NFloat (FDec false "0" "3"))) false;
+                  EGate "SWAP" [0; 2] [] (PList [NInt false 2; NFloat (FInf false)]) false;
+                  EGate "CRX" [2] [1] (PNum (NFloat (FDec false "0" "3"))) false])
+       ["x"; "MYGATE"].
+Example export2_instance :
+  export2 x_demo = Some (fold_right (fun l acc => (l ++ nl ++ acc)%string) ""
+    ["// QASM 2.0 file generated by QuTiP"; ""; "OPENQASM 2.0;"; "include ""qelib1.inc"";"; ""; "qreg q[3];"; "";
+     "// QuTiP definition for gate SWAP"; "gate swap a,b { cx a,b; cx b,a; cx a,b; }";
+     "// QuTiP definition for gate CRX"; "gate crx(theta) a,b { cu3(theta,-pi/2,pi/2) a,b; }";
+     "cx q[0],q[1];"; "swap q[0],q[2];"; "crx(0.3) q[1],q[2];"]) /\
+  export (x_c x_demo) = None /\
+  circ_wf (x_c x_demo) = false /\
+  no_meas (proj_circ (x_c x_demo)) = true /\ shapes_ok (proj_circ (x_c x_demo)) = true /\ circ_wf (proj_circ (x_c x_demo)) = true /\
+  no_extra_args (x_c x_demo) = false.
+Proof. repeat split; vm_compute; reflexivity. Qed.
+Example export2_refusal_instance :
+  export2 (mkXC (mkEC 2 0 [EGate "SNOT" [0] [] PNone false; EGate "X" [1] [] PNone false]) ["X"]) = None /\
+  export2 (mkXC (mkEC 2 0 [EGate "SNOT" [0] [] PNone false; EGate "X" [1] [] PNone false]) ["x"]) <> None /\
+  export2 (mkXC (mkEC 2 0 [EGate "rx" [0] [] PNone false]) ["rx"]) = None.
+Proof. split; [vm_compute; reflexivity|]. split; [vm_compute; discriminate|vm_compute; reflexivity]. Qed.
+Example export2_ignores_instance :
+  Forall2 same_upto_ignored_arg (e_ops (x_c x_demo))
+    [EGate "CNOT" [1] [0] PNone false; EGate "SWAP" [0; 2] [] (PNum (NInt true 7)) false; EGate "CRX" [2] [1] (PNum (NFloat (FDec false "0" "3"))) false] /\
+  takes_params "cx" = false /\ takes_params "swap" = false /\ takes_params "crx" = true /\ takes_params "U" = true.
+Proof.
+  split; [|repeat split; vm_compute; reflexivity].
+  constructor; [right; exists "CNOT", [1], [0]; do 3 eexists; exists "cx"; repeat split; vm_compute; reflexivity|].
+  constructor; [right; exists "SWAP", [0; 2], []; do 3 eexists; exists "swap"; repeat split; vm_compute; reflexivity|].
+  constructor; [left; reflexivity|constructor].
+Qed.
